@@ -25,6 +25,8 @@ func init() {
 			"registry insertions are paired with the subscription counter, TriggerCountInc with initialized.Store(true); the trigger id derives from the input hash and the headers hash; Source.Start has one call site, under a detached context, with tear-down on its error edge; " +
 			"sources call Done() after every Error()/Complete(). It does not decide that the counters return to zero for every history.",
 		Mutants: []Mutant{
+			{Name: "a live subscription identifier is overwritten in the indexes (reverts the F34 fix)", File: resolveGo, Rule: "C13-R12", Key: "Resolver.addSubscription/registers-only-an-unused-id",
+				Old: "\tif _, exists := r.subscriptionsByID[add.id]; exists {\n\t\treturn fmt.Errorf(\"subscription %d of connection %d is already registered\", add.id.SubscriptionID, add.id.ConnectionID)\n\t}\n", New: ""},
 			{Name: "a failed flush marks the subscription removed before unsubscribing (seeded change C13-23)", File: resolveGo, Rule: "C13-R11", Key: "Resolver.executeSubscriptionUpdate/removed-flag-write",
 				Old: "\tif err := sub.writer.Flush(); err != nil {\n\t\tsub.writeMu.Unlock()\n", New: "\tif err := sub.writer.Flush(); err != nil {\n\t\tsub.removed.Store(true)\n\t\tsub.writeMu.Unlock()\n"},
 			{Name: "trigger marked initialized after the registry lock was released (the repaired defect F19)", File: resolveGo, Rule: "C13-R10", Key: "markTriggerInitialized/initialized-set-under-registry-lock",
@@ -67,6 +69,7 @@ func init() {
 
 func runC13(r *fw.Run) {
 	defer c13OwnTrigger(r)
+	defer c13RegistrationNeverOverwrites(r)
 	defer c13RemovedFlagOnlyByTheRemover(r)
 	defer c13InitializedUnderRegistryLock(r)
 	defer c13LookupInsertAtomic(r)
@@ -1412,4 +1415,62 @@ func c13RemovedFlagOnlyByTheRemover(r *fw.Run) {
 		})
 	}
 	r.Expect("C13-R11", "writes of subscriptionState.removed", n, 2)
+}
+
+// c13RegistrationNeverOverwrites (R12): the registry indexes subscriptions by their identifier (subscriptionsByID, the
+// per-connection index, trigger.subscriptions). registerSubscriptionLocked stores with plain map assignments, so a second
+// registration under a live identifier overwrites the first record in the indexes: it can no longer be unsubscribed, its
+// completed channel is never closed, and — when the two have different upstream inputs — its trigger and upstream
+// subscription leak until the resolver shuts down. Every call of registerSubscriptionLocked must therefore be dominated
+// by a failed lookup of the identifier in subscriptionsByID (made under the same registry lock: the caller holds r.mu for
+// its whole body, C13-R1).
+func c13RegistrationNeverOverwrites(r *fw.Run) {
+	p := r.Prog
+	r.Rule("C13-R12", "every call of Resolver.registerSubscriptionLocked is dominated by the 'not found' edge of a lookup of the subscription identifier in Resolver.subscriptionsByID: a live identifier is never overwritten in the indexes")
+	n := 0
+	for _, fi := range p.Funcs("resolve") {
+		info := fi.Info()
+		okVars := map[types.Object]bool{}
+		fw.WalkAll(fi.Decl.Body, func(nd ast.Node) bool {
+			as, ok := nd.(*ast.AssignStmt)
+			if !ok || len(as.Lhs) != 2 || len(as.Rhs) != 1 {
+				return true
+			}
+			ix, isIx := ast.Unparen(as.Rhs[0]).(*ast.IndexExpr)
+			if !isIx || !fw.IsFieldSel(info, ix.X, "resolve", "Resolver", "subscriptionsByID") {
+				return true
+			}
+			if id, isID := as.Lhs[1].(*ast.Ident); isID {
+				o := info.Defs[id]
+				if o == nil {
+					o = info.Uses[id]
+				}
+				if o != nil {
+					okVars[o] = true
+				}
+			}
+			return true
+		})
+		ord := 0
+		in := fw.NewInterp(fi)
+		in.H = fw.Hooks{
+			Cond: func(e ast.Expr, branch bool, st *fw.State) {
+				if id, ok := ast.Unparen(e).(*ast.Ident); ok && okVars[info.Uses[id]] && !branch {
+					st.Set("id-absent")
+				}
+			},
+			Node: func(nd ast.Node, st *fw.State) {
+				c, ok := nd.(*ast.CallExpr)
+				if !ok || !in.Final() || !fw.CallIs(info, c, "resolve", "Resolver.registerSubscriptionLocked") {
+					return
+				}
+				n++
+				ord++
+				r.Check(st.Must("id-absent"), "C13-R12", fi.Name()+"/registers-only-an-unused-id#"+itoa(ord), p.Pos(c.Pos()), "registerSubscriptionLocked in "+fi.Name()+" is reached only after the identifier was looked up in subscriptionsByID and not found",
+					"a subscription is registered without checking that its identifier is unused: a second subscription under a live identifier overwrites the first in the indexes — the first can never be unsubscribed, its completed channel is never closed, the reported subscription count never returns to zero, and with a different upstream input its trigger and upstream subscription leak")
+			},
+		}
+		in.Run(nil)
+	}
+	r.Expect("C13-R12", "calls of registerSubscriptionLocked", n, 2)
 }
